@@ -150,6 +150,33 @@ impl ValidatorParser {
         Self
     }
 
+    /// The argument text of every validate attribute in `attrs`: #[validate(..)] itself, and a
+    /// validate(..) listed in #[cfg_attr(<condition>, ..)], as for the serde attributes
+    fn validate_arguments(attrs: &[Attribute]) -> Vec<String> {
+        let mut arguments = Vec::new();
+        for attr in attrs {
+            if attr.path().is_ident("validate") {
+                if let Ok(list) = syn::parse2::<syn::MetaList>(attr.meta.to_token_stream()) {
+                    arguments.push(list.tokens.to_string());
+                } else {
+                    arguments.push(String::new());
+                }
+            } else if attr.path().is_ident("cfg_attr") {
+                let listed = attr.parse_args_with(
+                    syn::punctuated::Punctuated::<syn::Meta, syn::Token![,]>::parse_terminated,
+                );
+                for meta in listed.iter().flatten().skip(1) {
+                    if let syn::Meta::List(list) = meta {
+                        if list.path.is_ident("validate") {
+                            arguments.push(list.tokens.to_string());
+                        }
+                    }
+                }
+            }
+        }
+        arguments
+    }
+
     /// Parse validator attributes from field attributes
     pub fn parse_validator_attributes(&self, attrs: &[Attribute]) -> Option<ValidatorAttributes> {
         let mut validator_attrs = ValidatorAttributes {
@@ -162,34 +189,45 @@ impl ValidatorParser {
 
         let mut found_validator = false;
 
-        for attr in attrs {
-            if attr.path().is_ident("validate") {
-                found_validator = true;
-                // Parse the tokens inside the validate attribute
-                if let Ok(tokens) = syn::parse2::<syn::MetaList>(attr.meta.to_token_stream()) {
-                    // Convert tokens to string and do basic parsing for now
-                    let tokens_str = tokens.tokens.to_string();
-                    // Validator names are looked up outside string literals (messages)
-                    let masked = mask_string_literals(&tokens_str);
-
-                    if find_word(&masked, "email").is_some() {
-                        validator_attrs.email = true;
+        for tokens_str in Self::validate_arguments(attrs) {
+            found_validator = true;
+            // Validator names are looked up outside string literals (messages), and only as
+            // validators of their own: must_match(other = email) declares no email validator
+            let masked = mask_string_literals(&tokens_str);
+            let mut depth = 0usize;
+            let declared: Vec<String> = masked
+                .split(|c: char| {
+                    match c {
+                        '(' | '[' | '{' => depth += 1,
+                        ')' | ']' | '}' => depth = depth.saturating_sub(1),
+                        _ => {}
                     }
+                    c == ',' && depth == 0
+                })
+                .map(|item| {
+                    item.trim_start()
+                        .chars()
+                        .take_while(|c| c.is_alphanumeric() || *c == '_')
+                        .collect()
+                })
+                .collect();
 
-                    if find_word(&masked, "url").is_some() {
-                        validator_attrs.url = true;
-                    }
+            if declared.iter().any(|name| name == "email") {
+                validator_attrs.email = true;
+            }
 
-                    // Parse length constraints
-                    if let Some(length_constraint) = self.parse_length_from_tokens(&tokens_str) {
-                        validator_attrs.length = Some(length_constraint);
-                    }
+            if declared.iter().any(|name| name == "url") {
+                validator_attrs.url = true;
+            }
 
-                    // Parse range constraints
-                    if let Some(range_constraint) = self.parse_range_from_tokens(&tokens_str) {
-                        validator_attrs.range = Some(range_constraint);
-                    }
-                }
+            // Parse length constraints
+            if let Some(length_constraint) = self.parse_length_from_tokens(&tokens_str) {
+                validator_attrs.length = Some(length_constraint);
+            }
+
+            // Parse range constraints
+            if let Some(range_constraint) = self.parse_range_from_tokens(&tokens_str) {
+                validator_attrs.range = Some(range_constraint);
             }
         }
 
